@@ -22,10 +22,117 @@ def resolve(type_name):
     return getattr(_mods[sid], obj), _encoders[sid]
 
 
+def norm(name):
+    return "".join(c for c in name.lower() if c.isalnum())
+
+
+def lookup(mod, name):
+    if hasattr(mod, name):
+        return getattr(mod, name)
+    for attr in dir(mod):
+        if norm(attr) == norm(name):
+            return getattr(mod, attr)
+    raise AttributeError("no %s in %s" % (name, mod.__name__))
+
+
+class FailingNested(Exception):
+    pass
+
+
+class Stub:
+    """Stands for a nested builder: build() returns a fixed object or fails."""
+
+    def __init__(self, value=None, fail=False):
+        self.value, self.fail = value, fail
+
+    def build(self):
+        if self.fail:
+            raise FailingNested("boom from nested builder")
+        return self.value
+
+
+def shape(sid, sh):
+    """Turns an argument shape (computed by the harness from the builder IR) into a Python value."""
+    k = sh["k"]
+    models = _mods[sid]
+    if k == "raw":
+        return sh.get("v")
+    if k == "obj":
+        return lookup(models, sh["t"]).from_json(sh["v"])
+    if k == "enum":
+        return lookup(models, sh["t"])(sh["v"])
+    if k == "builder":
+        return Stub(lookup(models, sh["t"]).from_json(sh["v"]))
+    if k == "fail":
+        return Stub(fail=True)
+    if k == "list":
+        return [shape(sid, x) for x in sh["items"]]
+    if k == "map":
+        return {key: shape(sid, x) for key, x in sh["items"].items()}
+    raise ValueError("unknown shape " + k)
+
+
+_bmods = {}
+
+
+def build_op(req, resp):
+    sid, bname = req["type"].split(".", 1)
+    if sid not in _mods:
+        _mods[sid] = importlib.import_module(sid + ".models.pk")
+        _encoders[sid] = importlib.import_module(sid + ".cog.encoder").JSONEncoder
+    if sid not in _bmods:
+        _bmods[sid] = importlib.import_module(sid + ".builders.pk")
+    cls = None
+    for attr in dir(_bmods[sid]):
+        obj = getattr(_bmods[sid], attr)
+        if isinstance(obj, type) and norm(attr) == bname and obj.__module__ == _bmods[sid].__name__:
+            cls = obj
+    if cls is None:
+        resp["unknown"] = True
+        return
+    try:
+        ctor_args = [shape(sid, a) for a in req.get("py_ctor") or []]
+    except BaseException as exc:  # noqa
+        resp["harness_err"] = "constructor args: %s: %s" % (type(exc).__name__, str(exc)[:300])
+        return
+    try:
+        builder = cls(*ctor_args)
+    except BaseException as exc:  # noqa
+        resp["call_err"] = "%s: %s" % (type(exc).__name__, str(exc)[:300])
+        resp["call_err_at"] = -1
+        return
+    for i, call in enumerate(req.get("calls") or []):
+        method = None
+        for attr in dir(builder):
+            if not attr.startswith("_") and norm(attr) == norm(call["option"]):
+                method = getattr(builder, attr)
+        if method is None:
+            resp["harness_err"] = "no method for option " + call["option"]
+            return
+        try:
+            args = [shape(sid, a) for a in call.get("py_args") or []]
+        except BaseException as exc:  # noqa
+            resp["harness_err"] = "option %s args: %s: %s" % (call["option"], type(exc).__name__, str(exc)[:300])
+            return
+        try:
+            method(*args)
+        except BaseException as exc:  # noqa
+            resp["call_err"] = "%s: %s" % (type(exc).__name__, str(exc)[:300])
+            resp["call_err_at"] = i
+            break
+    resp["internal"] = json.loads(json.dumps(builder._internal, cls=_encoders[sid]))
+    if "call_err" not in resp:
+        resp["out"] = json.loads(json.dumps(builder.build(), cls=_encoders[sid]))
+
+
 def handle(req):
     resp = {"id": req["id"]}
     stage = "import"
     try:
+        if req["op"] == "build":
+            stage = "build"
+            build_op(req, resp)
+            return resp
         cls, encoder = resolve(req["type"])
         if req["op"] == "roundtrip":
             stage = "from_json"
